@@ -72,6 +72,7 @@ func runC18(p *core.Prog, r *core.Result) {
 		"R18.12 an Events implementation does not die on a well-formed event: in the Events methods of the module (and the same-package functions they call) no value obtained from a fallible call whose error result is discarded is then used in an unchecked type assertion - the JSON renderer encodes the environment diff with json.encode, which fails for ordinary values (a dict with integer keys, a non-finite float), and a Go panic on a runner goroutine ends the stream without 'evaluating', terminal events or run-done",
 		"R18.13 the lone failed event for a missing dependency: Evaluate recognises a missing dependency by the dynamic type of the error it is handed (a type switch, not errors.As), so every function on LoadTarget's path that produces an error of such a type returns it as it is on every path - a wrapper around it (fmt.Errorf with %w, to add a suggestion) is no longer recognised and the dependent emits no event at all",
 		"R18.14 one evaluating/terminal pair per target and run: the runner creates one target object per label - runner.targetMap is touched only through LoadOrStore and newTarget only feeds it (C04's R4.3); a Load followed by a Store lets two requesters of a not-yet-seen dependency each start their own object for it, and the dependency is evaluated and reported twice",
+		"R18.15 output in order: what a target's own print() writes goes through the target's line buffer, like the output of the processes it runs - the Print callback of a target's thread writes to a *lineWriter and never invokes Events.Print itself (a line the buffer still holds back would otherwise be overtaken)",
 		"R18.6 the partial-line buffer never retains (a slice of) the caller's chunk: it only grows by copying appends",
 		"R18.5 lineWriter.Write conserves bytes: the unconsumed chunk is cut only at its first newline (c[:nl], c[nl+1:]); the rest becomes the next cursor; per newline exactly one line is delivered - c[:nl] alone only where the buffer is known empty, otherwise the buffer after c[:nl] was appended; without a newline the whole rest is buffered",
 		"R18.4 whenever a lineWriter method hands its buffered partial line to Events.Print it resets the buffer before returning (no byte is delivered twice)",
@@ -611,6 +612,7 @@ func runC18(p *core.Prog, r *core.Result) {
 
 	// ---- R18.13 the error of a missing dependency arrives in the form Evaluate tests for
 	checkClassifiedErrorsUnwrapped(p, r, "R18.13")
+	checkTargetPrintThroughLineBuffer(p, r, "R18.15")
 	// ---- R18.14 one runner target per label (the obligations of C04's R4.3)
 	{
 		sub := core.NewResult("C04")
